@@ -10,6 +10,8 @@ Patterns translated: literals (==), None / True / False (is), `A | B`, wildcard,
 positional sub-patterns (isinstance + attribute sub-patterns), sequence patterns (isinstance(Sequence, not str/bytes/bytearray),
 length, element sub-patterns, one starred capture) and mapping patterns (isinstance(Mapping), key presence, value sub-patterns).
   with contextlib.suppress(A, B): <body>   ->   try: <body> / except (A, B): pass
+  _NAME = <literal> at module level, bound once  ->  uses of _NAME inside functions / classes read the literal
+  x: T = v  ->  x = v   (annotated assignments outside class bodies; a bare `x: T` becomes `pass`; class-level ones declare record fields)
 
 A match statement that uses anything else (positional class sub-patterns, which depend on __match_args__) is left as it
 is - the engines then give no verdict for the function that contains it.
@@ -107,6 +109,37 @@ def _pattern(p, subj):
 class _Desugar(ast.NodeTransformer):
     def __init__(self, suppress_names=()):
         self.suppress_names = set(suppress_names)
+        self._in_class = 0
+
+    def visit_ClassDef(self, node):
+        # annotated assignments directly in a class body declare record fields (NamedTuple / dataclass): they are kept
+        self._in_class += 1
+        body = []
+        for st in node.body:
+            if isinstance(st, ast.AnnAssign):
+                body.append(st)
+            else:
+                r = self.visit(st)
+                body.extend(r if isinstance(r, list) else [r])
+        self._in_class -= 1
+        node.body = body
+        return node
+
+    def visit_FunctionDef(self, node):
+        saved, self._in_class = self._in_class, 0
+        self.generic_visit(node)
+        self._in_class = saved
+        return node
+
+    visit_AsyncFunctionDef = visit_FunctionDef
+
+    def visit_AnnAssign(self, node):
+        # `x: T = v` -> `x = v`; a bare declaration `x: T` binds nothing
+        self.generic_visit(node)
+        if node.value is None:
+            return ast.copy_location(ast.Pass(), node)
+        a = ast.Assign(targets=[node.target], value=node.value, type_comment=None)
+        return ast.copy_location(a, node)
 
     def visit_With(self, node):
         self.generic_visit(node)
@@ -173,7 +206,67 @@ class _Desugar(ast.NodeTransformer):
             return node
 
 
+def _private_literal_constants(tree):
+    """{name: Constant} for module-level `_NAME = <str / int / bool / None literal>` bound exactly once in the whole module (no other
+    store, parameter, import, global declaration, del or for / with / except / comprehension target of that name anywhere)"""
+    cand = {}
+    for st in tree.body:
+        tgt, val = None, None
+        if isinstance(st, ast.Assign) and len(st.targets) == 1 and isinstance(st.targets[0], ast.Name):
+            tgt, val = st.targets[0].id, st.value
+        elif isinstance(st, ast.AnnAssign) and isinstance(st.target, ast.Name) and st.value is not None:
+            tgt, val = st.target.id, st.value
+        if tgt and tgt.startswith('_') and not tgt.startswith('__') and isinstance(val, ast.Constant) and (val.value is None or type(val.value) in (str, int, bool)):
+            cand[tgt] = None if tgt in cand else val       # bound twice at module level: not a constant
+    cand = {k: v for k, v in cand.items() if v is not None}
+    if not cand:
+        return {}
+    stores = {}
+    for n in ast.walk(tree):
+        if isinstance(n, ast.Name) and isinstance(n.ctx, (ast.Store, ast.Del)) and n.id in cand:
+            stores[n.id] = stores.get(n.id, 0) + 1
+        elif isinstance(n, ast.arg) and n.arg in cand:
+            stores[n.arg] = 99
+        elif isinstance(n, (ast.Global, ast.Nonlocal)):
+            for x in n.names:
+                if x in cand:
+                    stores[x] = 99
+        elif isinstance(n, ast.alias) and (n.asname or n.name.split('.')[0]) in cand:
+            stores[n.asname or n.name.split('.')[0]] = 99
+        elif isinstance(n, ast.ExceptHandler) and n.name in cand:
+            stores[n.name] = 99
+        elif isinstance(n, (ast.FunctionDef, ast.AsyncFunctionDef, ast.ClassDef)) and n.name in cand:
+            stores[n.name] = 99
+    return {k: v for k, v in cand.items() if stores.get(k, 0) == 1}
+
+
+class _Propagate(ast.NodeTransformer):
+    """private module-level literal constants are read through inside function and class bodies (named constants introduced for
+    readability mean the literal)"""
+
+    def __init__(self, consts):
+        self.consts = consts
+        self.depth = 0
+
+    def _scoped(self, node):
+        self.depth += 1
+        self.generic_visit(node)
+        self.depth -= 1
+        return node
+
+    visit_FunctionDef = visit_AsyncFunctionDef = visit_ClassDef = visit_Lambda = _scoped
+
+    def visit_Name(self, node):
+        if self.depth and isinstance(node.ctx, ast.Load) and node.id in self.consts:
+            return ast.copy_location(ast.Constant(value=self.consts[node.id].value), node)
+        return node
+
+
 def desugar(tree):
+    consts = _private_literal_constants(tree)
+    if consts:
+        tree = _Propagate(consts).visit(tree)
+        ast.fix_missing_locations(tree)
     names = set()
     for n in tree.body:
         if isinstance(n, ast.Import):
@@ -185,7 +278,7 @@ def desugar(tree):
                 if a.name == 'suppress':
                     names.add(a.asname or 'suppress')
     has_suppress = names and any(isinstance(n, ast.With) and any(isinstance(i.context_expr, ast.Call) and ast.unparse(i.context_expr.func) in names for i in n.items) for n in ast.walk(tree))
-    if not has_suppress and not any(isinstance(n, ast.Match) for n in ast.walk(tree)):
+    if not has_suppress and not any(isinstance(n, (ast.Match, ast.AnnAssign)) for n in ast.walk(tree)):
         return tree
     tree = _Desugar(names).visit(tree)
     ast.fix_missing_locations(tree)
